@@ -38,6 +38,38 @@ def opEnts (toks : List String) : String :=
     | _, _ => "bad-args"
   | _ => "bad-args"
 
+/-! ### round 5: histories on one parser object, shown as the strings the entries evaluate to -/
+
+def showOutEnts (f : Fmt) (c : Option C01M.CtxO) (o : C01M.Out) : String :=
+  let s := match c with | some c => c.s | none => #[]
+  let (hd, es) := match o with
+    | .part es => ("part", es)
+    | .full (.done es) => ("done", es)
+    | .full (.stuck off es) => (s!"stuck {off}", es)
+  " | ".intercalate (hd :: es.map (showEnt f s))
+
+/-- the consuming operations of a history with the views of the entries (keys, raw values, values, comments, junk texts):
+    an entry indexes into the contents of the Context its generator is bound to -/
+def runHist (f : Fmt) : C01M.Obj → List C01M.Op → List String
+  | _, [] => []
+  | σ, op :: ops =>
+    let c : Option C01M.CtxO := match op with
+      | .next g _ => C01M.genCtx σ g
+      | .drain g => C01M.genCtx σ g
+      | _ => none
+    match C01M.stepG f σ op with
+    | (σ', some o) => showOutEnts f c o :: runHist f σ' ops
+    | (σ', none) => runHist f σ' ops
+
+/-- c02.hist <fmt> (R <text> | G <0|1> | N <g> <k> | D <g> | X <g>)* -/
+def opHist (toks : List String) : String :=
+  match toks with
+  | f :: cmds =>
+    match Ops.C01.parseFmt f, Ops.C01.parseGenOps cmds with
+    | some f, some cmds => " || ".intercalate (runHist f {} cmds)
+    | _, _ => "bad-args"
+  | _ => "bad-args"
+
 def op1 (f : List Nat → String) (toks : List String) : String :=
   match toks with
   | [t] => match parseText t with | some t => f t | none => "bad-args"
@@ -65,5 +97,6 @@ def ops : List (String × (List String → String)) :=
    ("props.spec", op1 (fun t => showText (propsUnescapeSpec t))),
    ("po.unescape", op1 (fun t => showOptText (poUnescape t))),
    ("po.onepass", op1 (fun t => showText (poOnePassText t))),
-   ("comment.val", opCommentVal)]
+   ("comment.val", opCommentVal),
+   ("c02.hist", opHist)]
 end Ops.C02
